@@ -334,7 +334,12 @@ def verify(contract, tier, check, budget=None, prefix=None):
             rep.obligations += 1
             continue
         except Exception as e:
-            check.engine_error(f"{contract.key}[{shape.name}]: executor crashed: {e!r}\n{traceback.format_exc()[-2500:]}")
+            # an internal error of the executor on this source is a tool limit, never a verdict: the shape is undecided
+            check.add_obligation(Obligation(f"{prop}.{contract.qualname}[{shape.name}].executor_error", contract.key, "unsupported", "-",
+                                            "undecided", 0.0, f"executor internal error (treated as outside the subset): {e!r} {traceback.format_exc()[-700:]}"))
+            check.note(f"executor internal error on {contract.key}[{shape.name}]: {e!r}")
+            rep.status = "unsupported"
+            rep.obligations += 1
             continue
         rep.paths += len(outs)
         n_return = 0
